@@ -69,3 +69,55 @@ package callbacks
 //@   ensures error-means-rollback: old(db.Error) != nil ==> commits == old(commits)
 //@   ensures success-means-commit: old(db.Error) == nil ==> rollbacks == old(rollbacks)
 //@   ensures skip-means-nothing: old(db.Config.SkipDefaultTransaction) ==> commits == old(commits) && rollbacks == old(rollbacks) [C19,C05]
+
+//@ # ---------- C13: hooks ----------
+//@ ghost hookCalls pendingHookErr
+//@ event callparam fc
+//@   in callbacks.callMethod
+//@   do hookCalls = hookCalls + 1
+//@ immutable Statement.CurDestIndex
+//@   writers callbacks.callMethod
+//@   tags C13
+
+//@ func callMethod
+//@   tags C13
+//@   loop 1 invariant index-tracks-elements: db.Statement.CurDestIndex == i && i >= 0
+//@   loop 1 invariant one-call-per-element: hookCalls == old(hookCalls) + 1 + i
+//@   ensures whole-value-offered-first: hookCalls >= old(hookCalls) + 1
+
+//@ site hooks-only-when-enabled
+//@   match call callbacks.callMethod
+//@   in callbacks.BeforeCreate callbacks.AfterCreate callbacks.BeforeUpdate callbacks.AfterUpdate callbacks.BeforeDelete callbacks.AfterDelete callbacks.AfterQuery
+//@   min-sites 7
+//@   assert no-pending-error: db.Error == nil [C13,C05]
+//@   assert hooks-not-skipped: !db.Statement.SkipHooks [C13]
+//@   assert schema-known: db.Statement.Schema != nil [C13]
+
+//@ event invoke BeforeSaveInterface.BeforeSave
+//@   do pendingHookErr = 1
+//@ event invoke BeforeCreateInterface.BeforeCreate
+//@   do pendingHookErr = 1
+//@ event invoke AfterCreateInterface.AfterCreate
+//@   do pendingHookErr = 1
+//@ event invoke AfterSaveInterface.AfterSave
+//@   do pendingHookErr = 1
+//@ event invoke BeforeUpdateInterface.BeforeUpdate
+//@   do pendingHookErr = 1
+//@ event invoke AfterUpdateInterface.AfterUpdate
+//@   do pendingHookErr = 1
+//@ event invoke BeforeDeleteInterface.BeforeDelete
+//@   do pendingHookErr = 1
+//@ event invoke AfterDeleteInterface.AfterDelete
+//@   do pendingHookErr = 1
+//@ event invoke AfterFindInterface.AfterFind
+//@   do pendingHookErr = 1
+//@ event call gorm.(*DB).AddError
+//@   do pendingHookErr = 0
+
+//@ func BeforeCreate$1 AfterCreate$1 BeforeUpdate$1 AfterUpdate$1 BeforeDelete$1 AfterDelete$1 AfterQuery$1
+//@   tags C13
+//@   requires pendingHookErr == 0
+//@   ensures every-hook-error-is-recorded: pendingHookErr == 0
+//@ immutable DB.Statement
+//@   writers gorm.(*DB).Session gorm.(*DB).getInstance gorm.Open gorm.(*DB).Begin gorm.(*DB).*
+//@   tags C13
